@@ -373,6 +373,9 @@ func (m Mut) ApplyElems(seq int, kind string, elems []string, base []Exchange) [
 				} else {
 					target["blockNumber"] = json.Number(strconv.FormatInt(m.Arg, 10))
 				}
+			case "item-blocknum-garbage":
+				// a string where the number belongs that is no quantity at all
+				target["blockNumber"] = []string{"0xzz", "0x", "", "0x-1", "0x10000000000000000"}[int(m.Arg)%5]
 			case "benign-item":
 				switch {
 				case kind == ExBlocks:
@@ -500,6 +503,7 @@ func Enumerate(base []Exchange, start, limit uint64, hashOf func(uint64) string)
 				add("item-txidx", k, i, -1, 57)
 				add("item-blockhash", k, i, -1, 0)
 				add("item-blocknum-wrong-type", k, i, -1, own)
+				add("item-blocknum-garbage", k, i, -1, own)
 				add("benign-item", k, i, -1, 0)
 				if ex.Kind == ExReceipts {
 					ls, _ := it["logs"].([]any)
